@@ -50,6 +50,15 @@ func vhEncRecord(r vhRec) []byte {
 // vhEncBatchV2 encodes one record batch (magic 2). count and lastOffsetDelta are given explicitly so that
 // compacted batches (fewer records present than the header announces, or none) can be expressed.
 func vhEncBatchV2(baseOffset int64, attributes int16, lastOffsetDelta int32, firstTs, maxTs int64, count int32, recs []vhRec) []byte {
+	var payload []byte
+	for _, r := range recs {
+		payload = append(payload, vhEncRecord(r)...)
+	}
+	return vhEncBatchV2Raw(baseOffset, attributes, lastOffsetDelta, firstTs, maxTs, count, payload)
+}
+
+// vhEncBatchV2Raw: the records section is given as bytes (already compressed when attributes says so).
+func vhEncBatchV2Raw(baseOffset int64, attributes int16, lastOffsetDelta int32, firstTs, maxTs int64, count int32, payload []byte) []byte {
 	body := &vhW{}
 	body.i16(attributes)
 	body.i32(lastOffsetDelta)
@@ -59,9 +68,7 @@ func vhEncBatchV2(baseOffset int64, attributes int16, lastOffsetDelta int32, fir
 	body.i16(-1) // producer epoch
 	body.i32(-1) // base sequence
 	body.i32(count)
-	for _, r := range recs {
-		body.raw(vhEncRecord(r))
-	}
+	body.raw(payload)
 	crc := crc32.Checksum(body.b, crc32.MakeTable(crc32.Castagnoli))
 	w := &vhW{}
 	w.i64(baseOffset)
